@@ -59,13 +59,8 @@ __CPROVER_ensures((active) ==> (nv_as_count == 1 && nv_as_sample == samples->p[n
 __CPROVER_ensures(!(active) ==> nv_as_count == 0)
 
 /* ---- affine */
-void affine_predict_lambda(int64_t i, double value, struct nv_outm* outputs, struct nv_rv* w, struct nv_rv* b);
-void affine_split_lambda(int64_t i, double nv_unnamed1, struct nv_cluster* cluster, struct nv_t1i* samples);
-/* loop_scalar by its contract proved in loops.h, at the ghost position: op(nv_g, nv_v) exactly once iff nv_v is finite */
-static void nv_ls_affine_predict_0(const struct nv_dataset* d, const struct nv_t1i* s, int64_t f, struct nv_outm* outputs, struct nv_rv* w, struct nv_rv* b)
-{ NV_LS_RECORD(d, s, f) if (0 <= nv_g && nv_g < s->n && NV_ISFIN(nv_v)) affine_predict_lambda(nv_g, nv_v, outputs, w, b); }
-static void nv_ls_affine_split_0(const struct nv_dataset* d, struct nv_t1i* s, int64_t f, struct nv_cluster* cluster, struct nv_t1i* samples)
-{ NV_LS_RECORD(d, s, f) if (0 <= nv_g && nv_g < s->n && NV_ISFIN(nv_v)) affine_split_lambda(nv_g, nv_v, cluster, samples); }
+/* the loop_scalar stubs (nv_ls_affine_*, nv_ls_hinge_*) and the prototypes of the extracted lambda bodies are generated from
+ * the lambdas' current capture lists (spec.py LS_BODY, engine/hooks.py lambda_stub_hook) */
 #define NV_CONTRACT_affine_do_predict NV_LIN_PREDICT_REQ NV_LIN_ASSIGNS NV_LIN_PREDICT_ENS(NV_ISFIN(nv_v))
 #define NV_CONTRACT_affine_do_split NV_LIN_SPLIT_REQ NV_LIN_SPLIT_ENS(NV_ISFIN(nv_v))
 
@@ -73,14 +68,5 @@ static void nv_ls_affine_split_0(const struct nv_dataset* d, struct nv_t1i* s, i
  * hinge_type::left / right only; read() does not re-validate the stored byte) */
 #define NV_HINGE_OK(self) ((self)->m_hinge == NVE_hinge_type_left || (self)->m_hinge == NVE_hinge_type_right)
 #define NV_HINGE_ACTIVE(self) (NV_ISFIN(nv_v) && (((self)->m_hinge == NVE_hinge_type_left) ? (nv_v < (self)->m_threshold) : (nv_v >= (self)->m_threshold)))
-void hinge_predict_lambda0(struct nv_lin* self, int64_t i, double value, struct nv_outm* outputs, struct nv_rv* w, struct nv_rv* b);
-void hinge_predict_lambda1(struct nv_lin* self, int64_t i, double value, struct nv_outm* outputs, struct nv_rv* w, struct nv_rv* b);
-void hinge_split_lambda(struct nv_lin* self, int64_t i, double value, struct nv_cluster* cluster, struct nv_t1i* samples);
-static void nv_ls_hinge_predict_0(const struct nv_dataset* d, const struct nv_t1i* s, int64_t f, struct nv_lin* self, struct nv_outm* outputs, struct nv_rv* w, struct nv_rv* b)
-{ NV_LS_RECORD(d, s, f) if (0 <= nv_g && nv_g < s->n && NV_ISFIN(nv_v)) hinge_predict_lambda0(self, nv_g, nv_v, outputs, w, b); }
-static void nv_ls_hinge_predict_1(const struct nv_dataset* d, const struct nv_t1i* s, int64_t f, struct nv_lin* self, struct nv_outm* outputs, struct nv_rv* w, struct nv_rv* b)
-{ NV_LS_RECORD(d, s, f) if (0 <= nv_g && nv_g < s->n && NV_ISFIN(nv_v)) hinge_predict_lambda1(self, nv_g, nv_v, outputs, w, b); }
-static void nv_ls_hinge_split_0(const struct nv_dataset* d, struct nv_t1i* s, int64_t f, struct nv_lin* self, struct nv_cluster* cluster, struct nv_t1i* samples)
-{ NV_LS_RECORD(d, s, f) if (0 <= nv_g && nv_g < s->n && NV_ISFIN(nv_v)) hinge_split_lambda(self, nv_g, nv_v, cluster, samples); }
 #define NV_CONTRACT_hinge_do_predict NV_LIN_PREDICT_REQ __CPROVER_requires(NV_HINGE_OK(self)) NV_LIN_ASSIGNS NV_LIN_PREDICT_ENS(NV_HINGE_ACTIVE(self))
 #define NV_CONTRACT_hinge_do_split NV_LIN_SPLIT_REQ __CPROVER_requires(NV_HINGE_OK(self)) NV_LIN_SPLIT_ENS(NV_HINGE_ACTIVE(self))
